@@ -38,6 +38,10 @@ Definition raw_hep_ok (fs : string) (body : list irule) : bool :=
   | [] => false
   end.
 
+(* a chain that can only pass packets on (cali-egress-dscp: DSCP rewriting only) *)
+Definition noop_target (a : target) : bool := match a with ANone | ALog | ANflog | ANoTrack => true | _ => false end.
+Definition noop_chain (body : list irule) : bool := forallb (fun r => noop_target (ir_action r)) body.
+
 (* dispatch chains: rules match on an interface only and RETURN or GOTO an endpoint chain / one level of child chains *)
 Definition iface_only (ms : list pmatch) : bool :=
   match ms with
